@@ -279,6 +279,13 @@ func (g *Gen) Remove(m Model) *Op {
 		op.Names = append(op.Names, take(installed, 1+g.R.Intn(2))...)
 	}
 	g.R.Shuffle(len(op.Names), func(i, j int) { op.Names[i], op.Names[j] = op.Names[j], op.Names[i] })
+	if len(op.Names) >= 2 && g.R.Intn(5) == 0 {
+		// repeated names: the removal still deletes exactly the named rules
+		for n := 1 + g.R.Intn(3); n > 0; n-- {
+			op.Names = append(op.Names, op.Names[g.R.Intn(len(op.Names))])
+		}
+		g.R.Shuffle(len(op.Names), func(x, y int) { op.Names[x], op.Names[y] = op.Names[y], op.Names[x] })
+	}
 	return op
 }
 
